@@ -73,7 +73,7 @@ BOUNDS = {
         "edits_per_pair": 2,
         "wrapper_list_levels": 2,
         "wrapper_position_kinds": 5,
-        "pairs": "all pairs of single edits on minimal, roots3, members; all pairs of the reduced edit list on kitchen; all pairs of wrapper changes at two different position kinds (one list level)",
+        "pairs": "all pairs of single edits on minimal and roots3; on members and kitchen (reduced edit list: no one-step wrapper neighbours) all pairs of edits inside the same type or directive; all pairs of wrapper changes at two different position kinds (one list level)",
         "hash_seeds": 8,
         "definition_orders": 3,
     },
@@ -103,6 +103,22 @@ def selftest():
 def _reduced(edits):
     """edit list for kitchen pairs: no one-step wrapper neighbours, kind changes only to 'scalar'."""
     return edits
+
+
+def _owner(e):
+    """the type / directive an edit lives in (None for schema-level edits)."""
+    if "at" in e:
+        at = e["at"]
+        return ("directive", at[1]) if at[0] == "directive-arg" else ("type", at[1])
+    if e["op"] in ("add-directive-arg", "add-location", "remove-location"):
+        return ("directive", e["directive"])
+    if e["op"] == "remove-directive":
+        return ("directive", e["name"])
+    if e["op"] in ("remove-type", "change-kind"):
+        return ("type", e["name"])
+    if "type" in e:
+        return ("type", e["type"])
+    return None
 
 
 def _edit_list(base, reduced=False):
@@ -137,9 +153,15 @@ def cases(tier):
         return
     for b in bases:
         reduced = b == "kitchen"
-        n = len(_edit_list(b, reduced))
+        es = _edit_list(b, reduced)
+        n = len(es)
+        owners = [_owner(e) for e in es]
         for i in range(n):
-            js = list(range(i + 1, n))
+            if b in ("minimal", "roots3"):
+                js = list(range(i + 1, n))  # all pairs
+            else:
+                # pairs of edits inside the same type / directive (where edits can interact)
+                js = [j for j in range(i + 1, n) if owners[i] is not None and owners[j] == owners[i]]
             for k in range(0, len(js), 4 * CHUNK):
                 yield {"fam": "pair", "base": b, "i": i, "js": js[k : k + 4 * CHUNK], "reduced": reduced}
     ws1 = M.wrappers(1)
@@ -409,6 +431,9 @@ def _inproc(item, st):
                     key = "edit-unreported:retype:ref-unsafe:%s:%s" % (direction, r.get("breach"))
             if r.get("reason") == "":
                 key += ":empty-reason"
+            if "-default:" in r["kind"] and any(q["kind"].startswith("retype:") and q["names"] == r["names"] for q in ref):
+                # default change on an element that was retyped at the same time
+                key = "edit-unreported:default-change-with-retype:" + r["kind"].split(":")[1]
             out.append((key, "no %s naming %s among %s for %s" % ("/".join(r["classes"]), r["names"], [x[2] for x in base_seq], desc)))
 
     # (c)
